@@ -74,11 +74,13 @@ func Materialise(s *Scenario) (*Sim, error) {
 		if s.Options.MinValues == "BestEffort" {
 			o.MinValuesPolicy = options.MinValuesPolicyBestEffort
 		}
+		o.IgnoreDRARequests = s.DRA == nil
 	}), "provisioner")
 	// catalog
 	var all []*cloudprovider.InstanceType
 	for _, t := range s.Types {
 		it := BuildType(t)
+		applyDRATemplates(s, it)
 		sim.Types[t.Name] = it
 		all = append(all, it)
 	}
@@ -144,6 +146,7 @@ func Materialise(s *Scenario) (*Sim, error) {
 	}
 	for _, p := range s.Pods {
 		pod := BuildPod(p, dsRef)
+		applyDRAPodClaims(s, pod)
 		st := pod.Status
 		w.EnvCreate(pod)
 		cur := &corev1.Pod{ObjectMeta: metav1.ObjectMeta{Name: pod.Name, Namespace: pod.Namespace}}
@@ -151,6 +154,9 @@ func Materialise(s *Scenario) (*Sim, error) {
 		sim.podKey[cur.UID] = podKey(cur)
 	}
 	materialiseTopo(w, s) // C02: namespaces, terminating / terminal bound pods (topo.go)
+	if err := sim.materialiseDRA(); err != nil {
+		return nil, err
+	}
 	// deleting nodes: API delete (finalizers keep them, virtual deletionTimestamp)
 	for _, n := range s.Nodes {
 		if !n.Deleting {
@@ -208,8 +214,11 @@ func Materialise(s *Scenario) (*Sim, error) {
 	if !sim.Cluster.Synced(sim.Ctx) {
 		return nil, fmt.Errorf("cluster state not synced after hydration")
 	}
-	sim.Prov = provisioning.NewProvisioner(w.Client, w.Rec, w.Prov, sim.Cluster, w.Clock, deviceallocation.NewController(w.Client),
-		virtualpods.NewVirtualPodCache(w.Client))
+	dac := deviceallocation.NewController(w.Client)
+	if s.DRA != nil {
+		dac.Hydrate(sim.Ctx) // AllocatedDevices blocks until the controller has listed the ResourceClaims once
+	}
+	sim.Prov = provisioning.NewProvisioner(w.Client, w.Rec, w.Prov, sim.Cluster, w.Clock, dac, virtualpods.NewVirtualPodCache(w.Client))
 	return sim, nil
 }
 
@@ -501,7 +510,8 @@ func (sim *Sim) ResultsEvent(res pscheduling.Results, runErr error, phase string
 	if runErr != nil {
 		errS = trunc(runErr.Error(), 200)
 	}
-	return trace.M{"e": "Results", "phase": phase, "err": errS, "claims": claims, "existing": existing, "errors": errs, "eff": eff}
+	return trace.M{"e": "Results", "phase": phase, "err": errS, "claims": claims, "existing": existing, "errors": errs, "eff": eff,
+		"dra": sim.DRAResults(res)}
 }
 
 // ---------------------------------------------------------------- the run
@@ -581,7 +591,7 @@ func RunScenario(s *Scenario, tw *trace.Writer) (sum trace.M, err error) {
 	removeHook()
 	frameSnap(sim, "post", "pass") // C18
 	if pan != "" {
-		emit(trace.M{"e": "Panic", "where": "Schedule", "msg": pan})
+		emit(trace.M{"e": "Panic", "where": "Schedule", "msg": pan, "class": PanicClass(pan)})
 	}
 	ev := sim.ResultsEvent(res, rerr, "schedule")
 	emit(ev)
@@ -590,7 +600,7 @@ func RunScenario(s *Scenario, tw *trace.Writer) (sum trace.M, err error) {
 		names, cerr := func() (n []string, e error) {
 			defer func() {
 				if r := recover(); r != nil {
-					emit(trace.M{"e": "Panic", "where": "CreateNodeClaims", "msg": trunc(fmt.Sprint(r), 200)})
+					emit(trace.M{"e": "Panic", "where": "CreateNodeClaims", "msg": trunc(fmt.Sprint(r), 200), "class": PanicClass(fmt.Sprint(r))})
 				}
 			}()
 			return sim.Prov.CreateNodeClaims(sim.Ctx, res.NewNodeClaims, provisioning.WithReason("provisioned"))
